@@ -74,6 +74,12 @@ FUNCTIONS = [
     ('checkpoint_handle', 'dataflows.processors.checkpoint', ['checkpoint', 'handle_flow_checkpoint'], ['self.steps']),
     ('checkpoint_preprocess', 'dataflows.processors.checkpoint', ['checkpoint', '_preprocess_chain'],
      ['self.filename', 'self.chain', 'self.checkpoint_path', 'self.checkpoint_name']),
+    # the exception funnel of the driver
+    ('raise_exception', 'dataflows.base.datastream_processor', ['DataStreamProcessor', 'raise_exception'], ['self.__class__', 'self.position']),
+    ('default_process_resource', 'dataflows.base.datastream_processor', ['DataStreamProcessor', 'process_resource']),
+    ('default_process_resources', 'dataflows.base.datastream_processor', ['DataStreamProcessor', 'process_resources']),
+    ('safe_process', 'dataflows.base.datastream_processor', ['DataStreamProcessor', 'safe_process']),
+    ('process_chain_step', 'dataflows.base.datastream_processor', ['DataStreamProcessor', '_process'], ['self.source', 'self.stats']),
     ('loop_schema_validator', 'dataflows.base.schema_validator', ['schema_validator', '@for:-1'], [], {'wb': ['on_error']}),
 ]
 AGG_KEYS = ['sum', 'avg', 'median', 'max', 'min', 'first', 'last', 'count', 'any', 'set', 'array', 'counters']
@@ -234,6 +240,8 @@ class Tr:
                 name = f.id
             elif isinstance(f, ast.Attribute) and isinstance(f.value, ast.Name) and f.value.id in ('collections', 'copy'):
                 name = f.attr if BCTOR.get(f.attr) is None else None
+            elif isinstance(f, ast.Attribute) and isinstance(f.value, ast.Name) and f.value.id in ('exceptions', 'logging'):
+                name = '%s.%s' % (f.value.id, f.attr)
             elif isinstance(f, ast.Attribute) and BCTOR.get('.' + f.attr) is None:
                 return self.call('.' + f.attr, [self.e(f.value)] + args + kwargs)
             elif isinstance(f, ast.Call):
@@ -259,7 +267,7 @@ class Tr:
                 return out
             return self.call(f.id, args)
         if isinstance(f, ast.Attribute):
-            if isinstance(f.value, ast.Name) and f.value.id in ('re', 'collections', 'copy', 'os', 'json', 'itertools'):
+            if isinstance(f.value, ast.Name) and f.value.id in ('re', 'collections', 'copy', 'os', 'json', 'itertools', 'logging', 'exceptions'):
                 mod = f.value.id
                 name = {'collections': f.attr, 'copy': f.attr}.get(mod, '%s.%s' % (mod, f.attr))
                 return self.call(name, args)
@@ -328,6 +336,27 @@ class Tr:
             if h:
                 return '(.seq %s (.ite %s %s %s))' % (h[0], h[1], self.seq(n.body), self.seq(n.orelse) if n.orelse else '.skip')
             return '(.ite %s %s %s)' % (self.e(n.test), self.seq(n.body), self.seq(n.orelse) if n.orelse else '.skip')
+        if isinstance(n, ast.Try) and not n.orelse and not n.finalbody and n.handlers and not (
+                len(n.handlers) == 1 and len(n.body) == 1 and isinstance(n.body[0], (ast.Assign, ast.AugAssign, ast.Expr))):
+            # general form: handlers run in the state before the try — only when no handler reads a name the body assigns
+            assigned = set()
+            for b in n.body:
+                for x in ast.walk(b):
+                    if isinstance(x, ast.Name) and isinstance(x.ctx, ast.Store):
+                        assigned.add(x.id)
+                    if isinstance(x, ast.Call) and isinstance(x.func, ast.Attribute) and x.func.attr in MUTATORS \
+                            and isinstance(x.func.value, ast.Name):
+                        assigned.add(x.func.value.id)
+            hs = '.nil'
+            for hd in reversed(n.handlers):
+                exc = self.typename(hd.type) if hd.type is not None else None
+                if exc is None:
+                    return self.sunsup('except clause')
+                read = {x.id for b in hd.body for x in ast.walk(b) if isinstance(x, ast.Name) and isinstance(x.ctx, ast.Load)}
+                if read & assigned:
+                    return self.sunsup('handler reads %s, which the try body assigns' % sorted(read & assigned))
+                hs = '(.cons %s %s %s %s)' % (lean_str(exc), lean_str(hd.name or '$exc'), self.seq(hd.body), hs)
+            return '(.tryCatch %s %s)' % (self.seq(n.body), hs)
         if isinstance(n, ast.Try):
             if len(n.handlers) != 1 or n.orelse or n.finalbody or len(n.body) != 1 \
                     or not isinstance(n.body[0], (ast.Assign, ast.AugAssign, ast.Expr)):
@@ -356,6 +385,9 @@ class Tr:
             return '(.assert_ %s)' % self.e(n.test)
         if isinstance(n, ast.Raise):
             exc = n.exc
+            if isinstance(exc, ast.Name) and exc.id[:1].islower():
+                # a local holding an exception object (`raise cause`, `raise error from cause`)
+                return '(.raiseE %s)' % self.e(exc)
             if isinstance(exc, ast.Call):
                 exc = exc.func
             tag = self.typename(exc) if exc is not None else None
